@@ -236,13 +236,15 @@ ServerSeqAnswerStep(key, ctx, first, m, now, fudge, tbl, fullNew) ==
 
 \* ServerError::build_message.  `resp' is the answer skeleton the caller's
 \* builder.start_answer(req, NOTAUTH) yields (header + question).
-\* unsigned error: TSIG with the request's names and times, empty MAC
-ServerErrUnsignedStep(req, resp, errcode) ==
+\* unsigned error (RFC 8945 5.3.2): TSIG with the request's key and algorithm
+\* names, empty MAC, the error; the RFC does not say which time values it
+\* carries (the library copies the request's), so they are parameters
+ServerErrUnsignedStep(req, resp, errcode, time, fudge) ==
   IF FromMessage(req) # "Found"
   THEN [panic |-> "D_server_error_panic" \in Dev, tsig |-> FALSE, msg |-> resp]
   ELSE LET t == LastRec(req)
        IN [panic |-> FALSE, tsig |-> TRUE,
-           msg |-> PushRec(resp, MkTsig(t.name, t.alg, t.time, t.fudge, <<>>,
+           msg |-> PushRec(resp, MkTsig(t.name, t.alg, time, fudge, <<>>,
                                         HdrId(req.hdr), errcode, <<>>))]
 \* signed error (BADTIME): other-data = server time
 ServerErrSignedStep(key, ctx, resp, etime, efudge, now, tbl, fullNew) ==
